@@ -58,7 +58,7 @@ class LStripLeft(X.SegmentVC):
     order with branch `j` matched, or names=None for the raw-end rule (groups = text, end tag, sign)."""
     prop = PROP
     target = "jinja2.lexer:Lexer.tokeniter"
-    timeout_quick = 20000
+    timeout_quick = 40000
 
     def __init__(self, names, j, family=""):
         self.names, self.j, self.family = names, j, family
@@ -107,6 +107,15 @@ class LStripLeft(X.SegmentVC):
         for s, needle, r in out.st.ghost.get("rfind", ()):
             if needle == "\n" and s.eq(self.text.t):
                 out_l += [self.K == r + 1, z3.Contains(self.text.t, X.NL) == (r >= 0)]
+        o = self.out_text(out)
+        if o is not None and not o.eq(self.text.t):
+            T = self.text.t
+            # facts about the kept text that follow from its term structure alone (it is a slice / strip of the text)
+            out_l += [z3.PrefixOf(o, T), o == z3.SubString(T, 0, z3.Length(o))]
+            for s, needle, r in out.st.ghost.get("rfind", ()):
+                if needle == "\n" and s.eq(T):
+                    out_l += [z3.Or(z3.Length(o) == r + 1, o == T), z3.Length(o) == r + 1,
+                              X.suffix_from(T, z3.Length(o)) == X.suffix_from(T, r + 1)]
         return out_l
 
     # ---- reading the post state
@@ -751,7 +760,11 @@ class LineStartingInit(_c39.LoopInit):
 
 
 def line_starting_tasks():
-    return _c39.loop_tasks(("linestart",), "C12.line_starting", cls=LineStarting) + [LineStartingInit(None, prefix="C12.line_starting.init")]
+    # the assignment of the flag comes after the per-rule-kind branches of the body and does not depend on WHICH named branch of
+    # the root rule matched: one VC per rule kind x (number of branches, variable tag or not); C39 proves the same equation
+    # (lossless.line_starting) for every branch position
+    return (_c39.loop_tasks(("linestart",), "C12.line_starting", cls=LineStarting, by_position=False)
+            + [LineStartingInit(None, prefix="C12.line_starting.init")])
 
 
 _rules_right = FnTask(PROP, "C12.rules.right", rules_right, kind="regex", replay_fn=replay_rules_right)
